@@ -1,4 +1,5 @@
 import Utv.Model.Rule
+import Utv.Model.C02Decl
 import Utv.Lemmas.Py
 /-!
 C02 — validation is exact on well-typed values and agrees with isinstance.
@@ -427,5 +428,229 @@ theorem C02_isinstance_agrees (originOk : PyVal → Bool) (parse : PyVal → M P
   unfold instancecheck
   simp only [h, Bool.not_true]
   cases parse v <;> simp
+
+/-! ### contains / min_contains / max_contains (`Rule._parse_contains`, enforced outside `__validators__`) -/
+
+open Utv.C02D
+
+theorem countLoop_eq (acc : PyVal → Bool) (xs : List PyVal) : ∀ n, countLoop acc xs n = n + xs.countP acc := by
+  induction xs with
+  | nil => intro n; simp [countLoop]
+  | cons x xs ih =>
+    intro n
+    simp only [countLoop, ih, List.countP_cons]
+    cases acc x <;> simp <;> omega
+
+/-- the documented sense: at least one element the `contains` type accepts, at least `min_contains`, at most
+`max_contains` of them (each bound only when declared) -/
+def ContainsSat (c : ContainsCfg) (n : Nat) : Prop :=
+  1 ≤ n ∧ (∀ m, c.minC = some m → m ≤ (n : Int)) ∧ (∀ m, c.maxC = some m → (n : Int) ≤ m)
+
+/-- … on a value: nothing to check when `contains` is not declared; otherwise the value must be iterable and the
+number of accepted elements must be in range -/
+def ContainsHolds (acc : PyVal → Bool) (c : ContainsCfg) (v : PyVal) : Prop :=
+  c.declared = true → ∃ xs, Py.iter v = .ok xs ∧ ContainsSat c (xs.countP acc)
+
+/-- **contains family, any element acceptor, any value**: accepted iff the count of accepted elements is within the
+declared bounds; the result is the input -/
+theorem C02_contains_iff (acc : PyVal → Bool) (c : ContainsCfg) (v r : PyVal) :
+    parseContains acc c v = .ok r ↔ ContainsHolds acc c v ∧ r = v := by
+  unfold parseContains ContainsHolds
+  cases hd : c.declared with
+  | false => simp [pure, Except.pure, eq_comm]
+  | true =>
+    simp only [Bool.not_true, Bool.false_eq_true, if_false, forall_const]
+    cases hi : Py.iter v with
+    | error e => simp [bind, Except.bind]
+    | ok xs =>
+      simp only [bind, Except.bind, countLoop_eq, Nat.zero_add, Except.ok.injEq, exists_eq_left']
+      unfold ContainsSat
+      by_cases h0 : xs.countP acc = 0
+      · simp [h0, throw, throwThe, MonadExceptOf.throw]
+      · have h1 : 1 ≤ xs.countP acc := by omega
+        simp only [beq_iff_eq, h0, if_false, h1, true_and]
+        cases hmin : c.minC with
+        | none =>
+          cases hmax : c.maxC with
+          | none => simp [pure, Except.pure, eq_comm]
+          | some M =>
+            by_cases hM : (xs.countP acc : Int) > M
+            · simp [hM, throw, throwThe, MonadExceptOf.throw]; omega
+            · simp [hM, pure, Except.pure, eq_comm]; omega
+        | some m =>
+          by_cases hm : (xs.countP acc : Int) < m
+          · simp [hm, throw, throwThe, MonadExceptOf.throw]; intro h; omega
+          · cases hmax : c.maxC with
+            | none => simp [hm, pure, Except.pure, eq_comm]; omega
+            | some M =>
+              by_cases hM : (xs.countP acc : Int) > M
+              · simp [hm, hM, throw, throwThe, MonadExceptOf.throw]; intro _; omega
+              · simp [hm, hM, pure, Except.pure, eq_comm]; omega
+
+/-- on a sequence with all three declared: `1 ≤ n`, `min ≤ n ≤ max` -/
+theorem C02_contains_min_max (acc : PyVal → Bool) (k : Cls) (xs : List PyVal) (m M : Int) (r : PyVal) :
+    parseContains acc ⟨true, some m, some M⟩ (.seq k xs) = .ok r ↔
+      (1 ≤ xs.countP acc ∧ m ≤ (xs.countP acc : Int) ∧ (xs.countP acc : Int) ≤ M) ∧ r = .seq k xs := by
+  rw [C02_contains_iff]
+  simp [ContainsHolds, ContainsSat, Py.iter, pure, Except.pure]
+
+/-- `contains` alone: at least one accepted element -/
+theorem C02_contains_alone (acc : PyVal → Bool) (k : Cls) (xs : List PyVal) (r : PyVal) :
+    parseContains acc ⟨true, none, none⟩ (.seq k xs) = .ok r ↔ 1 ≤ xs.countP acc ∧ r = .seq k xs := by
+  rw [C02_contains_iff]
+  simp [ContainsHolds, ContainsSat, Py.iter, pure, Except.pure]
+
+/-- boundaries of the count: `n = max` passes and `n = max + 1` fails; `n = min` passes and `n = min - 1` fails -/
+theorem C02_contains_boundaries (acc : PyVal → Bool) (k : Cls) (xs : List PyVal) (b : Int) (hb : 1 ≤ b) :
+    ((xs.countP acc : Int) = b → parseContains acc ⟨true, none, some b⟩ (.seq k xs) = .ok (.seq k xs)) ∧
+    ((xs.countP acc : Int) = b + 1 → ∀ r, parseContains acc ⟨true, none, some b⟩ (.seq k xs) ≠ .ok r) ∧
+    ((xs.countP acc : Int) = b → parseContains acc ⟨true, some b, none⟩ (.seq k xs) = .ok (.seq k xs)) ∧
+    ((xs.countP acc : Int) = b - 1 → ∀ r, parseContains acc ⟨true, some b, none⟩ (.seq k xs) ≠ .ok r) := by
+  refine ⟨?_, ?_, ?_, ?_⟩
+  · intro h
+    rw [C02_contains_iff]
+    refine ⟨fun _ => ⟨xs, rfl, ⟨by omega, fun m hm => (by cases hm), fun m hm => ?_⟩⟩, rfl⟩
+    simp only [Option.some.injEq] at hm; omega
+  · intro h r hr
+    obtain ⟨hc, _⟩ := (C02_contains_iff _ _ _ _).mp hr
+    obtain ⟨ys, hy, _, _, h3⟩ := hc rfl
+    cases hy
+    have := h3 b rfl
+    omega
+  · intro h
+    rw [C02_contains_iff]
+    refine ⟨fun _ => ⟨xs, rfl, ⟨by omega, fun m hm => ?_, fun m hm => (by cases hm)⟩⟩, rfl⟩
+    simp only [Option.some.injEq] at hm; omega
+  · intro h r hr
+    obtain ⟨hc, _⟩ := (C02_contains_iff _ _ _ _).mp hr
+    obtain ⟨ys, hy, _, h2, _⟩ := hc rfl
+    cases hy
+    have := h2 b rfl
+    omega
+
+/-! ### which validators a class gets: the constraints visible through the MRO (`Rule.__init_subclass__`) -/
+
+theorem lookup_cons (b : Body) (rest : List Body) (key : String) :
+    lookup (b :: rest) key = (match b.lookup key with | some a => some a | none => lookup rest key) := rfl
+
+/-- a constraint bound in some class of the MRO and in no class before it is what `getattr` finds -/
+theorem lookup_append (pre post : List Body) (b : Body) (key : String) (a : Attr)
+    (hpre : ∀ p ∈ pre, p.lookup key = none) (hb : b.lookup key = some a) :
+    lookup (pre ++ b :: post) key = some a := by
+  induction pre with
+  | nil => simp [lookup, hb]
+  | cons p ps ih =>
+    have hp : p.lookup key = none := hpre p (by simp)
+    simp only [List.cons_append, lookup, hp]
+    exact ih (fun q hq => hpre q (by simp [hq]))
+
+/-- **`generate_validators` collects exactly the visible constraints**: a (validator name, bound) pair is collected
+iff its key is a constraint name and `getattr` through the MRO yields that bound (not cancelled) in that mode -/
+theorem C02_collect_iff (mro : List Body) (name : String) (v : PyVal) :
+    (name, v) ∈ collect mro ↔
+      ∃ key lax, key ∈ Tables.constraintOrder ∧ lookup mro key = some (.val v lax) ∧ name = vname key lax := by
+  unfold collect
+  simp only [List.mem_filterMap]
+  constructor
+  · rintro ⟨key, hk, h⟩
+    cases hl : lookup mro key with
+    | none => simp [hl] at h
+    | some a =>
+      cases a with
+      | cancel => simp [hl] at h
+      | val w lax =>
+        simp only [hl, Option.some.injEq, Prod.mk.injEq] at h
+        exact ⟨key, lax, hk, by rw [hl, h.2], h.1.symm⟩
+  · rintro ⟨key, lax, hk, hl, rfl⟩
+    exact ⟨key, hk, by simp [hl]⟩
+
+/-- **every base, every level**: a constraint declared in any class of the MRO (own body, first base, a later base,
+a grand-parent) and not re-bound before it is enforced by the compiled validators' source list — in particular
+`class Score(int, NonNegative, AtMostTen): pass` collects both `ge` and `le` -/
+theorem C02_inherited_collected (pre post : List Body) (b : Body) (key : String) (v : PyVal) (lax : Bool)
+    (hk : key ∈ Tables.constraintOrder) (hpre : ∀ p ∈ pre, p.lookup key = none)
+    (hb : b.lookup key = some (.val v lax)) :
+    (vname key lax, v) ∈ collect (pre ++ b :: post) :=
+  (C02_collect_iff _ _ _).mpr ⟨key, lax, hk, lookup_append pre post b key _ hpre hb, rfl⟩
+
+/-- a cancelled (`unprovided`) or re-bound constraint of a base is *not* collected with the base's bound -/
+theorem C02_override_wins (b : Body) (rest : List Body) (key : String) (a : Attr) (hb : b.lookup key = some a) :
+    lookup (b :: rest) key = some a := by
+  simp [lookup, hb]
+
+/-- the worked example of the multiple-base declaration, computed by the model -/
+theorem C02_multi_base_example :
+    compile [[], [("ge", .val (.int 0) false)], [("le", .val (.int 10) false)]] = [("ge", .int 0), ("le", .int 10)] := by
+  rfl
+
+/-! ### the whole parse of a well-typed value, and isinstance -/
+
+/-- **Declared type level.**  For a declaration whose validators return their input and whose args parser hands a
+well-typed value back unchanged: the parse succeeds exactly when every compiled constraint accepts the value, the
+contains family holds, and the hook accepts — nothing is skipped, nothing else is checked -/
+theorem C02_parse_typed_iff (P : Prims) (d : Decl) (v r : PyVal)
+    (hargs : ∀ f, d.args = some f → f v = .ok v)
+    (hp : ∀ c ∈ d.validators, ∃ f, validatorOf c.1 = some f ∧ Preserving f) :
+    parseTyped P d v = .ok r ↔
+      (∀ c ∈ d.validators, ∃ f, validatorOf c.1 = some f ∧ f P v c.2 = .ok v) ∧
+      ContainsHolds d.acc d.cont v ∧ d.post v = .ok r := by
+  unfold parseTyped
+  have h1 : applyArgs d v = (.ok v : M PyVal) := by
+    unfold applyArgs
+    cases ha : d.args with
+    | none => rfl
+    | some f => exact hargs f ha
+  rw [h1]
+  simp only [bind, Except.bind]
+  cases hv : validate P d.validators v with
+  | error e =>
+    constructor
+    · intro h; cases h
+    · rintro ⟨hall, _, _⟩
+      have := (C02_validate_iff P d.validators v v hp).mpr ⟨hall, rfl⟩
+      rw [hv] at this; cases this
+  | ok v2 =>
+    have h2 := (C02_validate_iff P d.validators v v2 hp).mp hv
+    obtain ⟨hall, rfl⟩ := h2
+    cases hc : parseContains d.acc d.cont v2 with
+    | error e =>
+      constructor
+      · intro h; simp only [hc] at h; cases h
+      · rintro ⟨_, hch, _⟩
+        have := (C02_contains_iff d.acc d.cont v2 v2).mpr ⟨hch, rfl⟩
+        rw [hc] at this; cases this
+    | ok v3 =>
+      obtain ⟨hch, rfl⟩ := (C02_contains_iff d.acc d.cont v2 v3).mp hc
+      constructor
+      · intro h; simp only [hc] at h; exact ⟨hall, hch, h⟩
+      · rintro ⟨_, _, h⟩; simp only [hc]; exact h
+
+/-- `isinstance(v, T)` = origin check ∧ "the parse succeeds", for every declaration -/
+theorem C02_isinstance_decl (P : Prims) (d : Decl) (originOk : PyVal → Bool) (v : PyVal) :
+    instancecheck originOk (parseTyped P d) v = true ↔ originOk v = true ∧ ∃ r, parseTyped P d v = .ok r := by
+  unfold instancecheck
+  cases originOk v <;> cases parseTyped P d v <;> simp
+
+/-- … in particular for a type whose *only* checks are contains / hooks (no validators, no args): isinstance is not
+the bare origin check -/
+theorem C02_isinstance_contains_only (P : Prims) (d : Decl) (originOk : PyVal → Bool) (v : PyVal)
+    (hv : d.validators = []) (ha : d.args = none) (ho : originOk v = true) :
+    instancecheck originOk (parseTyped P d) v = true ↔ ContainsHolds d.acc d.cont v ∧ ∃ r, d.post v = .ok r := by
+  rw [C02_isinstance_decl, ho]
+  simp only [true_and]
+  constructor
+  · rintro ⟨r, hr⟩
+    have := (C02_parse_typed_iff P d v r (by simp [ha]) (by simp [hv])).mp hr
+    exact ⟨this.2.1, r, this.2.2⟩
+  · rintro ⟨hc, r, hr⟩
+    exact ⟨r, (C02_parse_typed_iff P d v r (by simp [ha]) (by simp [hv])).mpr ⟨by simp [hv], hc, hr⟩⟩
+
+/-- non-vacuity: a contains-only declaration that accepts one list and rejects another of the same origin type -/
+example (P : Prims) :
+    let d : Decl := { validators := [], args := none, cont := ⟨true, some 2, some 3⟩,
+                      acc := fun x => match x with | .int i => decide (0 < i) | _ => false, post := pure }
+    instancecheck (fun _ => true) (parseTyped P d) (.seq .list [.int 1, .int 2, .int (-1)]) = true ∧
+    instancecheck (fun _ => true) (parseTyped P d) (.seq .list [.int 1, .int (-2), .int (-1)]) = false := by
+  constructor <;> rfl
 
 end Utv.C02
